@@ -364,13 +364,17 @@ def run_app(S, fn, what, failures=None):
 
 
 def report(sx, failures):
-    """every collected failure is reported by a path of its own"""
+    """every collected failure is reported by a path of its own; one more
+    path goes on (its outcome, with the failures in it, is replayed natively
+    like that of any other path)"""
     if failures:
-        uniq = []
+        uniq = [None]
         for f in failures:
             if f not in uniq:
                 uniq.append(f)
-        sx.check(False, sx.pick("report", uniq))
+        label = sx.pick("report", uniq)
+        if label is not None:
+            sx.check(False, label)
 
 
 def fail(sx, S, label):
